@@ -106,11 +106,11 @@ def lp_rows(w):
     return rows, cols
 
 
-def probe(build, fixes, target, sense):
+def probe(build, fixes, target, sense, den=1):
     """fresh wrapper, build the gadget, fix the given variables, optimise target; returns (status, value)."""
     w, hv = build()
     for name, val in fixes.items():
-        w.add_constraint(hv[name] == val, name="fix_" + name)
+        w.add_constraint(hv[name] == (val / den if (den != 1 and name == "c") else val), name="fix_" + name)
     w.set_objective(w.quicksum([1 * hv[target]]), sense=sense)
     w.optimize()
     st = str(w.get_model_status())
@@ -136,11 +136,12 @@ def run_gadget(inst):
             w.add_binary_continuous_product_constraint(binary_var=hv["b"], continuous_var=hv["c"], product_var=hv["p"],
                                                        lb=0, ub=ub, name="g")
         elif kind == "integer":
+            den = inst.get("den", 1)          # bounds and values of the continuous factor are given in 1/den units
             hv["x"] = w.add_variables(["x"], name_prefix="x_", lb=0, ub=xub, var_type="integer")["x"]
-            hv["c"] = w.add_variables(["c"], name_prefix="c_", lb=0, ub=inst["cub"], var_type="continuous")["c"]
+            hv["c"] = w.add_variables(["c"], name_prefix="c_", lb=0, ub=inst["cub"] / den if den != 1 else inst["cub"], var_type="continuous")["c"]
             hv["p"] = w.add_variables(["p"], name_prefix="p_", lb=0, ub=max(ub, 1) * 2, var_type="continuous")["p"]
             w.add_integer_continuous_product_constraint(integer_var=hv["x"], continuous_var=hv["c"], product_var=hv["p"],
-                                                        lb=0, ub=ub, name="g")
+                                                        lb=0, ub=ub / den if den != 1 else ub, name="g")
         elif kind == "piecewise":
             lo = min(r[0] for r in inst["ranges"])
             hi = max(r[1] for r in inst["ranges"])
@@ -160,8 +161,8 @@ def run_gadget(inst):
         probes = []
         for fx_ in inst["probes"]:
             target = "y" if kind == "piecewise" else "p"
-            smin, vmin = probe(build, fx_, target, "minimize")
-            smax, vmax = probe(build, fx_, target, "maximize")
+            smin, vmin = probe(build, fx_, target, "minimize", inst.get("den", 1))
+            smax, vmax = probe(build, fx_, target, "maximize", inst.get("den", 1))
             probes.append({"fix": [[k, v] for k, v in sorted(fx_.items())], "smin": smin, "vmin": vmin, "smax": smax, "vmax": vmax})
         out["probe_obs"] = probes
     except BaseException as e:
